@@ -49,6 +49,9 @@ pub fn compare(r: &RefOutcome, pos: &BTreeMap<Id, Pos>, o: &Outcome) -> Verdict 
                     format!("expected run-time error {} but got {}", code, c),
                 );
             }
+            if *stmt >= crate::gast::AUX_BASE && !pos.contains_key(stmt) {
+                return Verdict::Undecided("the failing line of a block statement has no recorded position in this layout".into());
+            }
             let want_row = pos.get(stmt).map(|p| p.row);
             if rows.first().copied() != want_row {
                 return Verdict::Differ(
